@@ -151,3 +151,12 @@ func VerifTreeKey(t *TreeNode) string {
 	rec(t)
 	return b.String()
 }
+
+// VerifTarjanTrace runs the detector's Tarjan pass alone and returns its internal state: the components in EMISSION order
+// (before any later sorting/ranking), and the index and low-link it assigned to every module.
+func VerifTarjanTrace(g *DependencyGraph) (components [][]string, indices map[string]int, lowLinks map[string]int) {
+	cdd := NewCircularDependencyDetector(g)
+	cdd.resetState()
+	cdd.findStronglyConnectedComponents()
+	return cdd.components, cdd.indices, cdd.lowLinks
+}
